@@ -10,7 +10,7 @@ MANIFEST = {
              "pages keep arriving less than `timeout` apart the request never times out. Tie: timing histories on the real handler (timeout "
              "500 ms; observations only <= 0.3 or >= 3 timeouts after arming) and close-in-every-position exhaustive histories compared with the "
              "model. NOT proved, exercised by the harness: goroutines end, blocked receivers return, Close returns, on scripted socket "
-             "sessions (client/server/network-side close at each step boundary)."),
+             "sessions (client/server/network-side close at each step boundary; more successive connections than MaxConnections on one server)."),
     "technique": "Rocq proof (invariants over histories, abstract clock) + model/code correspondence + scripted socket sessions with goroutine accounting",
     "design_ref": "3 C16, 4, 8.1",
     "note": ("Partial by nature: goroutine scheduling, TCP and the Go memory model are outside the model. Lifecycle of CqlServer / "
@@ -32,7 +32,13 @@ def check(run):
         "than 1.2 where it has more) is re-run, at most twice, and left out of the correspondence if still off schedule. reuse-timeout: the "
         "id of a timed-out request is sent again before its late final frame. flood-conn: more EVENT frames than the events queue holds. "
         "Every call into the library runs under a watchdog (2 s of normally scheduled waiting): verdicts receiver-blocked / send-blocked / "
-        "close-hangs name the history and the step. Socket sessions (sock): scripted client/server sessions on localhost, "
+        "close-hangs name the history and the step. Accept sessions (sock, exercised): a server with MaxConnections 1 or 2 (1..3 in thorough) "
+        "receives more successive client connections than that (2m+2) through Bind / BindAndInit / Connect+Accept, AcceptAny never called (and a "
+        "variant with a goroutine draining it); 0..m clients stay open, every other one is closed before the next connects, from the client "
+        "side (the server connection's reader is then the first closer) or from the server connection; with m open one more must be refused, "
+        "not blocked; then CqlServer.Close() must return within 4 s and the goroutine count must return to the baseline; verdicts "
+        "accept-blocked (Bind/Accept does not return within 8 s, or a client is still refused 5 s after its predecessors were closed: the slot "
+        "of a closed connection never came back), close-hangs, goroutine-leak, with the session and the goroutine stacks. Socket sessions (sock): scripted client/server sessions on localhost, "
         "close injected from the client, the server or the peer socket at each step boundary, goroutine count compared with the baseline "
         "after bounded waits - exercised, not proved. non-trivial = at least one request accepted and one other kind of outcome")
     il.verdict(run, "C16", broken, findings)
